@@ -437,7 +437,7 @@ theorem SInv.of_PX {st st' : St} (inv : SInv st) (F : PenFrame st st') (P : PX s
 /-- Every pen operation with change events keeps the invariant and never fails: whatever the handlers take and
     drop, the library's own references keep alive what it goes on using. -/
 theorem step_pen_ok {cfg : Cfg} (R : Repaired cfg) {st : St} (inv : SInv st) (op : Op) (hp : op.penEvent = true) :
-    ∃ st' r, step cfg st op = .ok (st', r) ∧ SInv st' := by
+    ∃ st' r, step cfg st op = .ok (st', r) ∧ SInv st' ∧ st'.wx = st.wx := by
   have P0 := PX.of_inv inv
   cases op <;> simp only [Op.penEvent, Bool.false_eq_true] at hp <;> unfold step
   case pset k val =>
@@ -446,20 +446,20 @@ theorem step_pen_ok {cfg : Cfg} (R : Repaired cfg) {st : St} (inv : SInv st) (op
       simp only [hh, Bool.not_true, Bool.false_eq_true, if_false]
       obtain ⟨st1, h1, P1, F1⟩ := penSetColour_X P0 hpk hf val
       simp only [okR, h1, bind_ok, pure_ok]
-      exact ⟨_, _, rfl, inv.of_PX F1 P1⟩
-    · simp only [hh, Bool.not_false, if_true, skipR, pure_ok]; exact ⟨_, _, rfl, inv⟩
+      exact ⟨_, _, rfl, inv.of_PX F1 P1, F1.wx⟩
+    · simp only [hh, Bool.not_false, if_true, skipR, pure_ok]; exact ⟨_, _, rfl, inv, rfl⟩
   case pdesc k desc =>
     by_cases hh : heldP st k = true
     · obtain ⟨p, hpk, hf, _⟩ := heldP_spec hh
       simp only [hh, Bool.not_true, Bool.false_eq_true, if_false]
       rcases penSetDesc_X P0 hpk hf desc with h | ⟨st1, acc, h1, P1, F1⟩
-      · simp only [h, pure_ok]; exact ⟨_, _, rfl, inv⟩
+      · simp only [h, pure_ok]; exact ⟨_, _, rfl, inv, rfl⟩
       · simp only [h1, bind_ok, pure_ok]
-        exact ⟨_, _, rfl, inv.of_PX F1 P1⟩
-    · simp only [hh, Bool.not_false, if_true, skipR, pure_ok]; exact ⟨_, _, rfl, inv⟩
+        exact ⟨_, _, rfl, inv.of_PX F1 P1, F1.wx⟩
+    · simp only [hh, Bool.not_false, if_true, skipR, pure_ok]; exact ⟨_, _, rfl, inv, rfl⟩
   case pcopy d s ow =>
     by_cases hh : (!heldP st d || !heldP st s) = true
-    · simp only [hh, if_true, skipR, pure_ok]; exact ⟨_, _, rfl, inv⟩
+    · simp only [hh, if_true, skipR, pure_ok]; exact ⟨_, _, rfl, inv, rfl⟩
     · simp only [hh, Bool.false_eq_true, if_false]
       have hd : heldP st d = true := by
         cases h : heldP st d with
@@ -474,10 +474,10 @@ theorem step_pen_ok {cfg : Cfg} (R : Repaired cfg) {st : St} (inv : SInv st) (op
       rw [R.penCopyKeepsSrc]
       obtain ⟨st1, h1, P1, F1⟩ := penCopy_X P0 hpd hfd hps hfs ow
       simp only [okR, h1, bind_ok, pure_ok]
-      exact ⟨_, _, rfl, inv.of_PX F1 P1⟩
+      exact ⟨_, _, rfl, inv.of_PX F1 P1, F1.wx⟩
   case pcopyattr d s =>
     by_cases hh : (!heldP st d || !heldP st s) = true
-    · simp only [hh, if_true, skipR, pure_ok]; exact ⟨_, _, rfl, inv⟩
+    · simp only [hh, if_true, skipR, pure_ok]; exact ⟨_, _, rfl, inv, rfl⟩
     · simp only [hh, Bool.false_eq_true, if_false]
       have hd : heldP st d = true := by
         cases h : heldP st d with
@@ -491,16 +491,16 @@ theorem step_pen_ok {cfg : Cfg} (R : Repaired cfg) {st : St} (inv : SInv st) (op
       obtain ⟨ps, hps, hfs, _⟩ := heldP_spec hs
       obtain ⟨st1, h1, P1, F1⟩ := penCopyAttr_X P0 hpd hfd hps hfs
       simp only [okR, h1, bind_ok, pure_ok]
-      exact ⟨_, _, rfl, inv.of_PX F1 P1⟩
+      exact ⟨_, _, rfl, inv.of_PX F1 P1, F1.wx⟩
   case pbind k acts =>
     by_cases hh : heldP st k = true
     · simp only [hh, Bool.not_true, Bool.false_eq_true, if_false, pure_ok]
-      exact ⟨_, _, rfl, inv.of_PX (frame_setPX _ _ _) (P0.setPX _ _)⟩
-    · simp only [hh, Bool.not_false, if_true, skipR, pure_ok]; exact ⟨_, _, rfl, inv⟩
+      exact ⟨_, _, rfl, inv.of_PX (frame_setPX _ _ _) (P0.setPX _ _), rfl⟩
+    · simp only [hh, Bool.not_false, if_true, skipR, pure_ok]; exact ⟨_, _, rfl, inv, rfl⟩
   case punbind k id =>
     by_cases hh : heldP st k = true
     · simp only [hh, Bool.not_true, Bool.false_eq_true, if_false, pure_ok]
-      exact ⟨_, _, rfl, inv.of_PX (frame_setPX _ _ _) (P0.setPX _ _)⟩
-    · simp only [hh, Bool.not_false, if_true, skipR, pure_ok]; exact ⟨_, _, rfl, inv⟩
+      exact ⟨_, _, rfl, inv.of_PX (frame_setPX _ _ _) (P0.setPX _ _), rfl⟩
+    · simp only [hh, Bool.not_false, if_true, skipR, pure_ok]; exact ⟨_, _, rfl, inv, rfl⟩
 
 end Tickit.Life
